@@ -386,6 +386,106 @@ def check_visited_loop(b, head, blocks, setname=None):
     return False, "the contains test on %s does not leave the loop" % setname
 
 
+def _normal_succ(b, x):
+    """successors of x that are not cleanup blocks."""
+    return [y for y in b.succ[x] if not b.blocks[y].get("cleanup")]
+
+
+def check_monotone_exit_loop(b, head, blocks, _unused=None):
+    """`for v in start..` (RangeFrom: v grows by one per turn) with an exit test that is a conjunction of conditions each
+    of which is permanently true once v is large enough: `v >= c`, `x <= v - c` with x bounded above by its type or
+    its definition.  The test is evaluated on every cycle, so the loop leaves after finitely many turns."""
+    env = guard.Env(b)
+    # the loop variable: Some-payload of `<RangeFrom<_> as Iterator>::next` called in the header region
+    nxt = [c for c in b.calls if c.bb in blocks and (c.fn or "").endswith("Iterator::next") and "ops::RangeFrom<" in (c.full or "")]
+    if len(nxt) != 1 or nxt[0].dest["p"]:
+        return False, "no single RangeFrom::next in the loop"
+    if not every_cycle_passes(b, head, blocks, [nxt[0].bb]):
+        return False, "RangeFrom::next is not called on every cycle"
+    vs = set()
+    for bi, si, s in b.stmts():
+        rv = s.get("rv")
+        if rv and rv["k"] == "use" and "lhs" in s and not s["lhs"]["p"]:
+            p = op_place(rv["o"])
+            if p is not None and p["l"] == nxt[0].dest["l"] and len(p["p"]) == 2 and isinstance(p["p"][0], dict) and p["p"][0].get("down") == "Some":
+                vs.add(s["lhs"]["l"])
+            elif p is not None and not p["p"] and p["l"] in vs and len(b.defs.get(s["lhs"]["l"], [])) == 1:
+                vs.add(s["lhs"]["l"])
+    if not vs:
+        return False, "loop variable not found"
+    vbases = set()
+    for v in vs:
+        if len(b.defs.get(v, [])) != 1:
+            return False, "loop variable is reassigned"
+        vbases.add(env.uname(v))
+
+    def monotone(bb):
+        t = b.term(bb)
+        if t["k"] != "switch" or t["dty"] != "bool":
+            return None
+        p = op_place(t["d"])
+        if p is None or p["p"]:
+            return None
+        d = b.single_def(p["l"])
+        if not (d and d[2] == "rv" and d[3]["k"] == "bin" and d[3]["op"] in ("Le", "Lt", "Ge", "Gt")):
+            return None
+        pos = (d[0], d[1])
+        x, y = env.op_term(d[3]["a"], pos), env.op_term(d[3]["b"], pos)
+        small, big = (x, y) if d[3]["op"] in ("Le", "Lt") else (y, x)
+        # loop variable (named copy) on the big side, up to a constant offset
+        def vbase(tm):
+            if tm.base in vbases:
+                return True
+            for v in vs:
+                if tm.base is not None and tm.base == env.local_term(v, pos, 4).base:
+                    return True
+            return False
+        if not vbase(big):
+            return None
+        if small.base is None:
+            ub = small.off
+        else:
+            r = env.term_range(small)
+            if not r or r[1] >= 2 ** 31:
+                return None
+            ub = r[1] + small.off
+        tt = [x_ for v_, x_ in t["tg"] if v_ == "0"]
+        if len(tt) != 1 or t["else"] in tt:
+            return None
+        return t["else"], ub - big.off
+
+    def straight(x):
+        """follow single normal successors from x up to the next branching block; None if the walk leaves the loop."""
+        seen = set()
+        while x in blocks and x not in seen:
+            seen.add(x)
+            t = b.term(x)
+            if t["k"] == "switch":
+                return x
+            ns = _normal_succ(b, x)
+            if len(ns) != 1:
+                return x
+            x = ns[0]
+        return None if x not in blocks else x
+
+    for c1 in sorted(blocks):
+        m = monotone(c1)
+        if m is None or not every_cycle_passes(b, head, blocks, [c1]):
+            continue
+        cur, bound, n = c1, None, 0
+        while True:
+            m = monotone(cur)
+            if m is None:
+                break
+            n += 1
+            bound = m[1] if bound is None else max(bound, m[1])
+            nx = straight(m[0])
+            if nx is None:
+                return True, "the exit test (%d condition(s) on the RangeFrom variable, each permanently true from %s = %d on) is evaluated on every cycle" % (n, b.names.get(sorted(vs)[0], "v"), bound)
+            cur = nx
+    return False, "no exit test that becomes permanently true as the RangeFrom variable grows"
+
+
 def check_termination(ctx, F, scope, loops_table, rec_table, rule="R-TERM"):
     """obligations for every non-iterator loop and every recursion cycle of the scope."""
     stats = {"loops": 0, "iter": 0, "local_iter": 0, "verified": 0, "tabled": 0, "open": 0, "sccs": 0}
@@ -421,6 +521,8 @@ def check_termination(ctx, F, scope, loops_table, rec_table, rule="R-TERM"):
                     ok, how = check_visited_loop(b, head, blocks, None)
                 elif w == "counter-or-pop":
                     ok, how = check_counter_or_pop_loop(b, head, blocks, None, None)
+                elif w == "monotone-exit":
+                    ok, how = check_monotone_exit_loop(b, head, blocks, None)
                 elif w == "tabled":
                     ok, how = (r.get("sig") == sig), "signature differs from the reviewed loop"
                     if ok:
